@@ -62,6 +62,13 @@ impl Gen {
         Gen { w, cfg: cfg.clone(), last: None }
     }
 
+    /// as `new`, with the signed entity types given explicitly (e.g. the default configuration: stake distribution only)
+    pub async fn with_discs(name: &str, cfg: &HistoryCfg, discs: &[D]) -> Gen {
+        let params = ProtocolParameters { k: cfg.k, m: cfg.m, phi_f: 0.95 };
+        let w = World::new(name, cfg.n_signers, params, discs).await;
+        Gen { w, cfg: cfg.clone(), last: None }
+    }
+
     fn signing_entity(&self) -> Option<usize> {
         // the open message the state machine is signing: the newest non-certified, non-expired one
         if self.w.tester.runtime.state_label() != "signing" {
